@@ -31,16 +31,16 @@ def scanPlain (cfg : Config σ τ ε) (nextState : Nat → Option Nat) :
     let dflt : Unit → Outcome σ := fun _ => if s = 0 then .fin st else failPlain st
     match d.eoi with
     | some (.accept accs) => testRightCtxs cfg accs st dflt
-    | some (.goto t) => .goto { st with state := renumber (inlinedStates cfg.dfa) t }
+    | some (.goto t) => .goto { st with state := renumber cfg.inl t }
     | none => dflt ()
   | s, c :: rest, st =>
     let d := cfg.dfa.st s
     let st := setAccepting cfg d { st with iter := c :: rest }
     let st := { st with iter := rest, curEnd := st.curEnd.advance cfg.width c }
     let goto (t : Nat) : Outcome σ :=
-      if inlinedAt cfg.dfa t then scanPlain cfg nextState t rest st
+      if inlinedAt cfg.inl t then scanPlain cfg nextState t rest st
       else
-        let n := renumber (inlinedStates cfg.dfa) t
+        let n := renumber cfg.inl t
         match nextState n with
         | some t' => scanPlain cfg nextState t' rest { st with state := n }
         | none => .goto { st with state := n }
@@ -50,9 +50,15 @@ def scanPlain (cfg : Config σ τ ε) (nextState : Nat → Option Nat) :
     | none => failPlain st
 
 /-- `nextState` resolves the number stored for every non-inlined state to that state (what
-`dispatch_correct` establishes for `dispatch (stateArms d)`). -/
-def DispatchOK (d : DFA Trans) (nextState : Nat → Option Nat) : Prop :=
-  ∀ t, t < d.length → inlinedAt d t = false → nextState (renumber (inlinedStates d) t) = some t
+`dispatch_correct` establishes for `dispatch (stateArms d inl)`). -/
+def DispatchOK (d : DFA Trans) (inl : List Nat) (nextState : Nat → Option Nat) : Prop :=
+  ∀ t, t < d.length → inlinedAt inl t = false → nextState (renumber inl t) = some t
+
+/-- What the generated code needs of the set of inlined states, whatever policy chose it: strictly
+ascending (the vector `renumber_state` searches), within range, and no initial state (those are
+entered through `__state`, so they need an arm). -/
+def InlOK (d : DFA Trans) (inl : List Nat) : Prop :=
+  inl.Pairwise (· < ·) ∧ ∀ i ∈ inl, i < d.length ∧ (d.st i).initial = false
 
 /-- every `goto` target is a state, and not an initial one -/
 def targetsOK (d : DFA Trans) : Bool :=
